@@ -35,6 +35,11 @@ GRAMMARS = {
            "Property: name=ID ':' type=[Type];\nType: SimpleType | Entity;\nSimpleType: 'type' name=ID;\n",
            "type int\ntype str\nentity A { x: int  y: str }\nentity B { a: A  n: int }\n"),
 }
+# a model that imports another file (third entry: the imported files): exported with its model repository
+GRAMMARS["g6"] = ("Model: imports*=Import items+=Item;\nImport: 'import' importURI=STRING;\nItem: Def | Use;\n"
+                  "Def: 'def' name=ID;\nUse: 'use' ref=[Def];\n",
+                  'import "lib.mdl"\ndef a\nuse a\nuse q\n',
+                  {"lib.mdl": "def q\ndef r\nuse q\n"})
 GENERATORS = ["mm-dot", "mm-plantuml", "model-dot"]
 
 
@@ -64,8 +69,31 @@ class _InjectedGenExit(GeneratorExit):
     vt_injected = True
 
 
+class _InjectedType(TypeError):
+    vt_injected = True
+
+
+class _InjectedAttr(AttributeError):
+    vt_injected = True
+
+
+class _InjectedRuntime(RuntimeError):
+    vt_injected = True
+
+
+def _unicode_error():
+    # what a real f.write() raises for text that cannot be encoded (a ValueError)
+    e = UnicodeEncodeError("utf-8", "injected \udc80 (C31 check)", 9, 10, "surrogates not allowed")
+    e.vt_injected = True
+    return e
+
+
 # the kinds of failure that can interrupt an export (GenFile!FailureKinds)
 FAILURES = {"OSError": lambda: _Injected(errno.EIO, "injected I/O failure (C31 check)"),
+            "ValueError": _unicode_error,
+            "TypeError": lambda: _InjectedType("injected (C31 check)"),
+            "AttributeError": lambda: _InjectedAttr("injected (C31 check)"),
+            "RuntimeError": lambda: _InjectedRuntime("injected (C31 check)"),
             "KeyboardInterrupt": lambda: _InjectedInterrupt("injected interrupt (C31 check)"),
             "SystemExit": lambda: _InjectedExit(1),
             "GeneratorExit": lambda: _InjectedGenExit("injected (C31 check)")}
@@ -115,21 +143,19 @@ class _Proxy:
 class _IO:
     """Replacement for `open` in the writing modules during one generator run."""
 
-    def __init__(self, target, crash_at, kind="OSError"):
-        self.target, self.crash_at, self.kind = os.path.abspath(target) if target else None, crash_at, kind
-        self.events, self.count, self.crashed = [], 0, False
+    def __init__(self, target, faults=None):
+        """faults: {index of the I/O call (counted over the whole run): kind of failure}"""
+        self.target, self.faults = os.path.abspath(target) if target else None, dict(faults or {})
+        self.events, self.count = [], 0
         self.opened = []
 
     def op(self, name, **fields):
-        if self.crashed:
-            return                      # whatever the code does after the failure is not part of the trace
         k = self.count
         self.count += 1
-        if self.crash_at is not None and k == self.crash_at:
-            self.crashed = True
-            self.events.append(dict(name="Crash", kind=self.kind))
-            raise FAILURES[self.kind]()
-        self.events.append(dict(name=name, **fields))
+        if k in self.faults:
+            self.events.append(dict(name="Fault", kind=self.faults[k], call=name, i=k))
+            raise FAILURES[self.faults[k]]()
+        self.events.append(dict(name=name, i=k, **fields))
 
     def open(self, path, mode="r", *a, **kw):
         if not any(ch in mode for ch in "wax+"):
@@ -148,13 +174,21 @@ class Subject:
         import textx.generators as gens
         from textx import metamodel_from_file
         self.gen, self.gname, self.name = gen, gname, f"{gen}/{gname}"
-        gtxt, mtxt = GRAMMARS[gname]
+        gtxt, mtxt = GRAMMARS[gname][:2]
+        extra = GRAMMARS[gname][2] if len(GRAMMARS[gname]) > 2 else {}
         self.indir = os.path.join(workdir, f"in-{gen}-{gname}")
         os.makedirs(self.indir)
         gpath = os.path.join(self.indir, gname + ".tx")
         with open(gpath, "w") as f:
             f.write(gtxt)
         mm = metamodel_from_file(gpath)
+        if extra:
+            # a multi-file model: the imported files make the model carry a model repository
+            from textx.scoping import providers
+            mm.register_scope_providers({"*.*": providers.PlainNameImportURI()})
+            for name, txt in extra.items():
+                with open(os.path.join(self.indir, name), "w") as f:
+                    f.write(txt)
         if gen == "model-dot":
             mpath = os.path.join(self.indir, gname + ".mdl")
             with open(mpath, "w") as f:
@@ -175,10 +209,10 @@ class Subject:
         self.linked = False
 
     # ---- one run of the real generator
-    def call(self, overwrite, crash_at=None, kind="OSError"):
+    def call(self, overwrite, faults=None):
         import textx.export as export
         import textx.generators as gens
-        io = _IO(self.target, crash_at, kind)
+        io = _IO(self.target, faults)
         mods = [export, gens]
         saved = [m.__dict__.get("open", None) for m in mods]
         for m in mods:
@@ -260,16 +294,17 @@ class Subject:
         return ev
 
     # ---- one scenario -> one trace
-    def scenario(self, overwrite, pre, crash_at, kind="OSError"):
+    def scenario(self, overwrite, pre, faults=None):
+        """faults: {I/O call index: failure kind} injected into the first run (several calls may fail)."""
         self.reset_out(pre)
         seen, behind = TARGET_KINDS[pre]
         events = [dict(name="Start", ow=bool(overwrite), pre=seen, dest=behind, n=self.n)]
         for rerun in (False, True):
-            io, raised = self.call(overwrite if not rerun else False, None if rerun else crash_at, kind)
+            io, raised = self.call(overwrite if not rerun else False, None if rerun else faults)
             if raised is not None and not isinstance(raised, Exception) and not getattr(raised, "vt_injected", False):
                 raise raised                # a real interrupt of the harness, not an observation
             evs = io.events
-            if not self.blind and not any(e["name"] in ("Open", "Crash") for e in evs):
+            if not self.blind and not any(e["name"] in ("Open", "Fault") for e in evs):
                 evs = [dict(name="Skip")]
             events += evs
             events.append(dict(name="End", raised=raised is not None))
@@ -284,7 +319,7 @@ def short(trace, k=None):
     """Readable form of a trace (Write runs collapsed)."""
     out, evs = [], trace["events"] if k is None else trace["events"][:k]
     for e in evs:
-        f = {a: b for a, b in e.items() if a != "name"}
+        f = {a: b for a, b in e.items() if a not in ("name", "i")}
         s = e["name"] + (str(f) if f else "")
         if out and out[-1][0] == s:
             out[-1][1] += 1
